@@ -5,6 +5,7 @@ package scen
 // and every declared constraint is re-evaluated with zog-free predicates.
 
 import (
+	"time"
 	"fmt"
 	"reflect"
 	"strings"
@@ -147,7 +148,7 @@ func contains(s, sub string) bool {
 func init() {
 	Register(&Prop{
 		ID:    "C01",
-		Rule:  "same enumeration as C02 (skeleton, mode, ≤k focus units over full alphabets, all field visit orders); non-trivial = a deviating case on which the call returned no issues (the oracle walks the destination); distinct = distinct (skeleton, mode, schema configuration) among those. plus " + callsRule + " (C01 reports the sequences in which a call came back without issues although the same call made alone reports a violation). plus " + layoutRule + " (C01 reports runs with fewer issues than the fresh schema). plus built-in string tests (Email, URL, Contains, HasSuffix, Len, Max, Min; plain and negated) on mail addresses, URLs and repeated letters of 63..70000 bytes at top level, as field and as element in both modes: no issue ⇒ the destination value satisfies the test. plus every chain of 2 or 3 numeric bounds (GT, GTE, LT, LTE, EQ with limits 5 and 10, any order, repeats allowed) on Int and Float64 nodes at top level and as field, subjects 4..11 and 5.5, both modes: no issue ⇒ every declared bound holds, and the issue codes are exactly the failing bounds in declaration order",
+		Rule:  "same enumeration as C02 (skeleton, mode, ≤k focus units over full alphabets, all field visit orders); non-trivial = a deviating case on which the call returned no issues (the oracle walks the destination); distinct = distinct (skeleton, mode, schema configuration) among those. plus " + callsRule + " (C01 reports the sequences in which a call came back without issues although the same call made alone reports a violation). plus " + layoutRule + " (C01 reports runs with fewer issues than the fresh schema). plus built-in string tests (Email, URL, Contains, HasSuffix, Len, Max, Min; plain and negated) on mail addresses, URLs and repeated letters of 63..70000 bytes at top level, as field and as element in both modes: no issue ⇒ the destination value satisfies the test. plus every chain of 2 or 3 numeric bounds (GT, GTE, LT, LTE, EQ with limits 5 and 10, any order, repeats allowed) on Int and Float64 nodes at top level and as field, subjects 4..11 and 5.5, both modes: no issue ⇒ every declared bound holds, and the issue codes are exactly the failing bounds in declaration order; the same for chains of Min/Max/Len on String (limits 2, 3; lengths 1..4) and Slice (limits 1, 2; lengths 1..3) nodes and After/Before/EQ on Time nodes (two limits; five instants around them)",
 		Floor: 50,
 		Bound: func(tier string) string {
 			k, e := coreK(tier)
@@ -164,6 +165,7 @@ func init() {
 			// "...or an earlier call" on the same schema object with another destination type
 			items = append(items, layoutItems(tier, "C01", "issues-missing", "panic")...)
 			items = append(items, Item{Name: "number-bound-chains", MaxDevs: -1, Run: c01NumberChainScenario})
+			items = append(items, Item{Name: "length-and-instant-bound-chains", MaxDevs: -1, Run: c01OtherChainScenario})
 			return append(items, Item{Name: "builtin-tests-on-long-values", MaxDevs: -1, Run: c01BuiltinLongScenario})
 		},
 	})
@@ -426,6 +428,182 @@ func c01NumberChainScenario(x *mc.X) *mc.Outcome {
 	case !eqStrings(codes, want):
 		note()
 		out.Viol = append(out.Viol, &mc.Violation{Key: "C01:number-bound-chain:codes", What: "the reported issues are not the failing declared bounds, one each, in declaration order", Expected: fmt.Sprint(want), Observed: fmt.Sprint(codes)})
+	}
+	return out
+}
+
+// The same for the length bounds of String and Slice nodes and the instant bounds of Time nodes.
+type c01Other struct {
+	S string
+	L []int
+	T time.Time
+}
+
+func c01OtherChainScenario(x *mc.X) *mc.Outcome {
+	zh.Reset()
+	zh.Install(x, zh.PoolLIFO, zh.OrderSorted)
+	family := x.Choose(3, "family") // 0 String, 1 Slice(Int), 2 Time
+	t0 := time.Date(2020, 1, 1, 0, 0, 0, 0, time.UTC)
+	lim := [][]int{{2, 3}, {1, 2}, {0, 10}}[family]
+	ops := []string{"Min", "Max", "Len"}
+	if family == 2 {
+		ops = []string{"After", "Before", "EQ"}
+	}
+	length := 2 + x.Choose(2, "chain length")
+	type bound struct {
+		op string
+		n  int
+	}
+	var chain []bound
+	var names []string
+	for i := 0; i < length; i++ {
+		b := bound{ops[x.Choose(3, "op")], lim[x.Choose(2, "limit")]}
+		chain = append(chain, b)
+		names = append(names, fmt.Sprintf("%s(%d)", b.op, b.n))
+	}
+	var sizes []int
+	switch family {
+	case 0:
+		sizes = []int{1, 2, 3, 4}
+	case 1:
+		sizes = []int{1, 2, 3}
+	default:
+		sizes = []int{-1, 0, 5, 10, 11} // seconds after t0
+	}
+	size := sizes[x.Choose(len(sizes), "subject")]
+	place := x.Choose(2, "placement")
+	mode := x.Choose(2, "mode")
+	at := func(n int) time.Time { return t0.Add(time.Duration(n) * time.Second) }
+	ss, sl, st := z.String(), z.Slice(z.Int()), z.Time()
+	for _, b := range chain {
+		switch b.op {
+		case "Min":
+			ss, sl = ss.Min(b.n), sl.Min(b.n)
+		case "Max":
+			ss, sl = ss.Max(b.n), sl.Max(b.n)
+		case "Len":
+			ss, sl = ss.Len(b.n), sl.Len(b.n)
+		case "After":
+			st = st.After(at(b.n))
+		case "Before":
+			st = st.Before(at(b.n))
+		case "EQ":
+			st = st.EQ(at(b.n))
+		}
+	}
+	holds := func(b bound, got int) bool {
+		switch b.op {
+		case "Min":
+			return got >= b.n
+		case "Max":
+			return got <= b.n
+		case "Len", "EQ":
+			return got == b.n
+		case "After":
+			return got > b.n
+		}
+		return got < b.n // Before
+	}
+	code := map[string]string{"Min": "min", "Max": "max", "Len": "len", "After": "after", "Before": "before", "EQ": "eq"}
+	subjS := ""
+	if family == 0 {
+		subjS = strings.Repeat("a", size)
+	}
+	subjL := make([]int, 0, 3)
+	for i := 0; family == 1 && i < size; i++ {
+		subjL = append(subjL, i+1)
+	}
+	var d c01Other
+	var issues z.ZogIssueList
+	flat := func(m z.ZogIssueMap) {
+		for k, l := range m {
+			if k != "$first" {
+				issues = append(issues, l...)
+			}
+		}
+	}
+	if place == 0 {
+		switch {
+		case family == 0 && mode == 0:
+			issues = ss.Parse(subjS, &d.S)
+		case family == 0:
+			d.S = subjS
+			issues = ss.Validate(&d.S)
+		case family == 1 && mode == 0:
+			in := []any{}
+			for _, v := range subjL {
+				in = append(in, v)
+			}
+			flat(sl.Parse(in, &d.L))
+		case family == 1:
+			d.L = subjL
+			flat(sl.Validate(&d.L))
+		case mode == 0:
+			issues = st.Parse(at(size), &d.T)
+		default:
+			d.T = at(size)
+			issues = st.Validate(&d.T)
+		}
+	} else {
+		sc := z.Struct(z.Schema{"s": ss.Optional(), "l": sl.Optional(), "t": st.Optional()})
+		if mode == 0 {
+			in := map[string]any{}
+			switch family {
+			case 0:
+				in["s"] = subjS
+			case 1:
+				in["l"] = subjL
+			default:
+				in["t"] = at(size)
+			}
+			flat(sc.Parse(in, &d))
+		} else {
+			switch family {
+			case 0:
+				d.S = subjS
+			case 1:
+				d.L = subjL
+			default:
+				d.T = at(size)
+			}
+			flat(sc.Validate(&d))
+		}
+	}
+	zh.Reset()
+	got := 0
+	switch family {
+	case 0:
+		got = len(d.S)
+	case 1:
+		got = len(d.L)
+	default:
+		got = int(d.T.Sub(t0) / time.Second)
+	}
+	var want, codes []string
+	for _, b := range chain {
+		if !holds(b, got) {
+			want = append(want, code[b.op])
+		}
+	}
+	for _, is := range issues {
+		codes = append(codes, is.Code)
+	}
+	fam := []string{"String()", "Slice(Int())", "Time()"}[family]
+	out := &mc.Outcome{Traces: 1, Nontrivial: len(issues) == 0, Sig: fmt.Sprintf("chain|%s|%v|%d|%d|%v", fam, names, place, mode, len(issues) == 0)}
+	out.Sample = map[string]any{"node": fam, "chain": names, "subject_size_or_offset": size, "placement": place, "mode": mode, "codes": codes}
+	note := func() {
+		x.Note("chain %v on %s (Time limits and subjects are seconds after 2020-01-01T00:00:00Z), subject size/offset %d, placement %d (0 top, 1 field), mode %d (0 Parse, 1 Validate)", names, fam, size, place, mode)
+	}
+	switch {
+	case got != size && len(issues) == 0:
+		note()
+		out.Viol = append(out.Viol, &mc.Violation{Key: "C01:bound-chain:value:" + fam, What: "the destination does not hold the supplied value", Expected: fmt.Sprint(size), Observed: fmt.Sprint(got)})
+	case len(issues) == 0 && len(want) > 0:
+		note()
+		out.Viol = append(out.Viol, &mc.Violation{Key: "C01:bound-chain:clean-despite-violation:" + fam, What: "no issue was reported although the destination value violates a declared bound", Expected: fmt.Sprintf("issues with codes %v", want), Observed: "no issues"})
+	case !eqStrings(codes, want):
+		note()
+		out.Viol = append(out.Viol, &mc.Violation{Key: "C01:bound-chain:codes:" + fam, What: "the reported issues are not the failing declared bounds, one each, in declaration order", Expected: fmt.Sprint(want), Observed: fmt.Sprint(codes)})
 	}
 	return out
 }
